@@ -4,32 +4,47 @@ import dbggen
 from core import log
 
 
-def compare(a, b):
-    """implementation lines vs model lines -> None if they agree, else a short reason."""
+def compare_all(a, b):
+    """implementation lines vs model lines -> list of reasons why they differ (empty: they agree)."""
     if not a or not b:
-        return "missing result"
+        return ["missing result"]
     fa, ea = dbggen.decode_lines(a)
     fb, eb = dbggen.decode_lines(b)
     if fb == [8]:
-        return None          # script text outside the domain of DebugText.v (a line that leaves the process)
+        return []            # script text outside the domain of DebugText.v (a line that leaves the process)
     if fa == [9] or fb == [9]:
-        return None if fa == fb else "assemble/load verdict differs"
+        return [] if fa == fb else ["assemble/load verdict differs"]
     sa, sb = dbggen.split_first(fa), dbggen.split_first(fb)
     if sa is None or sb is None:
-        return "malformed result"
+        return ["malformed result"]
     if sa["kind"] == 4 or sb["kind"] == 4:
         if sa["kind"] == 4 and sb["kind"] != 4 and sb["ticks"] * 2 + 16 < sa["ticks"]:
-            return "implementation used up its iteration budget where the model finished (livelock?)"
-        return None
-    for k in ("kind", "code", "pc", "cc", "regs", "out", "inpleft", "mem", "execs", "cmds", "attached", "bps"):
-        if sa[k] != sb[k]:
-            return f"{k} differs"
+            return ["implementation used up its iteration budget where the model finished (livelock?)"]
+        return []
+    why = [f"{k} differs" for k in ("kind", "code", "pc", "cc", "regs", "out", "inpleft", "mem", "execs", "cmds", "attached", "bps")
+           if sa[k] != sb[k]]
     if ea != eb:
-        return "debugger output differs"
-    return None
+        why.append("debugger output differs")
+    return why
 
 
-def run_dbg_cases(ctx, cases, tags, violations, profiles=("debug",), limit=10, note="", extra=None, text_too=True):
+def compare(a, b):
+    why = compare_all(a, b)
+    return why[0] if why else None
+
+
+def classify(why_all, aux):
+    """-> (reason to report, outside_property): outside_property when every difference is among the observations the
+    property does not speak about (`aux`): the correspondence is broken but no input on which the PROPERTY fails was found."""
+    if not why_all:
+        return None, False
+    rel = [w for w in why_all if w not in aux]
+    if rel:
+        return rel[0], False
+    return why_all[0], True
+
+
+def run_dbg_cases(ctx, cases, tags, violations, profiles=("debug",), limit=10, note="", extra=None, text_too=True, aux=()):
     evaluations, mismatches, skipped = 0, 0, 0
     sigs, samples, hist = set(), [], {}
     vkeys = set()
@@ -60,7 +75,7 @@ def run_dbg_cases(ctx, cases, tags, violations, profiles=("debug",), limit=10, n
                 sigs.add(sig)
                 if len(samples) < 8:
                     samples.append({"tag": tags[ci], "model_first_line": b[0][:120] if b else None, "model_stderr": eb[:6]})
-            why = compare(a, b)
+            why, outside = classify(compare_all(a, b), aux)
             if why is None and extra is not None:
                 why = extra(ci, a, b)
             if why is None:
@@ -70,7 +85,9 @@ def run_dbg_cases(ctx, cases, tags, violations, profiles=("debug",), limit=10, n
             if str(key) in vkeys or len(vkeys) >= limit:
                 continue
             vkeys.add(str(key))
-            violations.append({"kind": "model-vs-implementation", "why": why, "profile": prof, "tag": tags[ci],
+            violations.append({"kind": "correspondence-differs-outside-the-property" if outside else "model-vs-implementation",
+                               "no_failing_input": outside,
+                               "why": why, "profile": prof, "tag": tags[ci],
                                "case": cases[ci], "implementation": a, "model": b,
                                "implementation_stderr": dbggen.decode_lines(a)[1], "model_stderr": eb,
                                "format": "kind code pc cc r0..r7 nout out.. inpleft nmem (a v).. ticks execs cmds attached nbps (a p)..; then 7e + stderr line",
@@ -99,7 +116,7 @@ def run_dbg_cases(ctx, cases, tags, violations, profiles=("debug",), limit=10, n
             n += 1
             if b and b[0].split() == ["8"]:
                 outside += 1
-            why = compare(a, b)
+            why, outside = classify(compare_all(a, b), aux)
             if why is None:
                 continue
             bad += 1
@@ -107,7 +124,8 @@ def run_dbg_cases(ctx, cases, tags, violations, profiles=("debug",), limit=10, n
             if str(key) in vkeys or len(vkeys) >= limit:
                 continue
             vkeys.add(str(key))
-            violations.append({"kind": "model-vs-implementation", "why": why, "profile": profiles[0], "tag": ttags[ci] + ":text",
+            violations.append({"kind": "correspondence-differs-outside-the-property" if outside else "model-vs-implementation",
+                               "no_failing_input": outside, "why": why, "profile": profiles[0], "tag": ttags[ci] + ":text",
                                "case": tcases[ci], "implementation": a, "model": b,
                                "implementation_stderr": dbggen.decode_lines(a)[1], "model_stderr": dbggen.decode_lines(b)[1],
                                "format": "DBGT case: the model parses the script text itself (DebugText.v)", "note": note})
